@@ -17,7 +17,7 @@ RULE = (
     "Request classes are discovered at run time (UDSService registry + public UDSRequest subclasses); for each class with a "
     "reference-codec entry, constructor arguments are generated in the documented ranges (boundary-biased integers, both suppress "
     "settings, address/size widths 1..15 with explicit or automatic ALFID, 1..n repeated groups, records of 0..4095 bytes). "
-    "Paths: valid (construct, compare .pdu with the reference ISO encoding, from_pdu and parse_dynamic round trip), "
+    "Paths: valid (construct, compare .pdu with the reference ISO encoding, from_pdu and parse_dynamic round trip, parse again after the first result was modified, caller's lists changed after construction), "
     "bad (exactly one parameter pushed out of range: must raise at construction or at .pdu), client (UDSClient service method "
     "with the user's arguments over a capture transport: bytes written must equal the reference encoding). "
     "Non-trivial: an optional/variable part is non-default (suppress bit, non-empty record, >=2 groups, explicit ALFID, boundary "
